@@ -219,8 +219,33 @@ class Oracle:
             return None
         return int(t[0])
 
+    def dtm(self, fen):
+        """exact distance to mate (moves) of a pawnless <= 4-man position from the engine's own
+        retrograde generator (certified exact by C12): ('mate', n) | ('mated', n) | ('draw', 0) | None"""
+        t = self.proc.ask("M " + fen, timeout=900).split()
+        if t[0] in ("mate", "mated"):
+            return t[0], int(t[1])
+        if t[0] == "draw":
+            return "draw", 0
+        return None
+
     def close(self):
         self.proc.close()
+
+
+def batch_retry(exe, lines, retry, timeout=3600):
+    """certificate checker run: all requests, then (multi-threaded traces) RETRY, which appends one
+    final verdict per request answered BAD"""
+    if not lines:
+        return []
+    rc, out, err = sh([exe], input="\n".join(lines + (["RETRY"] if retry else [])) + "\n", timeout=timeout)
+    res = out.split("\n")
+    if res and res[-1] == "":
+        res.pop()
+    nbad = sum(1 for x in res[:len(lines)] if x != "OK")
+    if rc != 0 or len(res) != len(lines) + (nbad if retry else 0):
+        raise RuntimeError("%s: rc=%d, %d answers for %d requests\n%s" % (exe, rc, len(res), len(lines), err[-2000:]))
+    return res
 
 
 def parse_annot(line):
@@ -377,6 +402,48 @@ def random_endgame(rng, oracle, kinds=("KQK", "KRK", "KQKR", "KRRK", "KQKB", "KB
             continue
         return fen
     raise RuntimeError("could not generate an endgame position")
+
+
+def dtm_endgames(rng, oracle, want, lo, hi, kinds=("KQK", "KRK", "KQK", "KRK", "KRRK", "KQKN", "KQKB", "KQKR", "KQQK")):
+    """won/lost pawnless <= 4-man positions whose exact distance to mate (moves) is in [lo, hi]"""
+    out = []
+    for _ in range(want * 60):
+        if len(out) >= want:
+            break
+        fen = random_endgame(rng, oracle, kinds=(rng.choice(kinds),))
+        e = oracle.dtm(fen)
+        if e is not None and e[0] in ("mate", "mated") and lo <= e[1] <= hi:
+            out.append((fen, e))
+    return out
+
+
+def null_clamp_scenarios(oracle):
+    """request sequences (each to be run in order in ONE harness process) that take the
+    isWinScore clamp of the null-move return (search.cpp:740-743).  The path is practically
+    unreachable in ordinary searches: the null move is only tried when evalScore >= beta, and in
+    its subtree the same side's nodes then cut off at beta with stand-pat / fail-soft evaluation
+    values, so the null-move child never sees a mate score for EVERY reply.  Here the replies'
+    positions are first searched with a full window (exact mate scores go into the shared table),
+    then the node is searched at depth 9 with a normal null window: razoring/futility do not
+    apply to the null child (depth 5), every grandchild is cut by its table entry, the null
+    search fails high with a win score and the clamp returns beta."""
+    seqs = []
+    for seed in NULL_THREAT_SEEDS:
+        for fen in (seed, mirror_fen(seed)):
+            a = oracle.annotate(fen)
+            if a is None:
+                continue
+            p = fen.split()
+            p[1] = "b" if p[1] == "w" else "w"
+            p[3] = "-"
+            an = oracle.annotate(" ".join(p))
+            if an is None or not an[1] or an[0]:
+                continue
+            seq = ["T"] + ["D %s | %d %d 4 3" % (f, -MATE0, MATE0) for _, f in an[1]]
+            for w in ((100, 101), (400, 401)):
+                seq.append("D %s | %d %d 2 9" % (fen, w[0], w[1]))
+            seqs.append(seq)
+    return seqs
 
 
 def random_game_positions(rng, oracle, nplies, start=START_FEN):
@@ -596,6 +663,7 @@ def check_announcements(oracle, fen, res, max_n, stats, want_mate1=False):
     a = oracle.annotate(fen)
     mp = uci_to_code_map(a[1])
     last_exact_by_depth = {}
+    exact = oracle.dtm(fen) if sum(1 for c in fen.split()[0] if c.isalpha()) <= 4 else None
     for (d, kind, val, bound, pv) in res["infos"]:
         if not bound:
             last_exact_by_depth[d] = (kind, val, pv)
@@ -603,6 +671,20 @@ def check_announcements(oracle, fen, res, max_n, stats, want_mate1=False):
             continue
         if val > 0 and bound != "upperbound":
             stats["win_claims"] = stats.get("win_claims", 0) + 1
+            if exact is not None:
+                # exact distance-to-mate oracle: no limit on N
+                stats["win_claims_vs_exact_dtm"] = stats.get("win_claims_vs_exact_dtm", 0) + 1
+                if not (exact[0] == "mate" and exact[1] <= val):
+                    fails.append(dict(kind="false mate announcement", fen=fen, claim="mate %d %s" % (val, bound), depth=d,
+                                      expected="exact distance to mate: %s %d" % exact))
+                    continue
+                if pv and pv[0] in mp:
+                    ea = oracle.dtm(mp[pv[0]][1])
+                    if not (ea is not None and ea[0] == "mated" and ea[1] <= val - 1):
+                        fails.append(dict(kind="announced move does not keep the mate", fen=fen, move=pv[0],
+                                          claim="mate %d %s" % (val, bound), depth=d,
+                                          expected="after %s the exact result is %s, not mated within %d" % (pv[0], ea, val - 1)))
+                continue
             if val <= max_n:
                 dd, ms = oracle.mate_in(fen, val)
                 stats["win_claims_solved"] = stats.get("win_claims_solved", 0) + 1
@@ -625,7 +707,12 @@ def check_announcements(oracle, fen, res, max_n, stats, want_mate1=False):
             kind, val, pv = last_exact_by_depth[fd]
             if kind == "mate" and val < 0:
                 stats["loss_claims"] = stats.get("loss_claims", 0) + 1
-                if -val <= max_n:
+                if exact is not None:
+                    stats["loss_claims_vs_exact_dtm"] = stats.get("loss_claims_vs_exact_dtm", 0) + 1
+                    if not (exact[0] == "mated" and exact[1] <= -val):
+                        fails.append(dict(kind="false final mate -N", fen=fen, claim="mate %d" % val, depth=fd,
+                                          expected="exact distance to mate: %s %d" % exact))
+                elif -val <= max_n:
                     k = oracle.mated_in(fen, -val)
                     stats["loss_claims_solved"] = stats.get("loss_claims_solved", 0) + 1
                     if k is None or k < 0:
@@ -656,17 +743,17 @@ class TraceRec:
                  "ttty", "ttraw", "ttd", "eval", "mg", "qid", "ngen", "nsearched", "nfut", "finals", "fen", "ok")
 
 
-def parse_trace(path):
-    """-> (searches, evals); searches = list of dict(root_fen, nroot, events=[('N', rec) | ('R', tuple) | ('D', ...)]).
-    Node ids restart at 1 for every Search object (record O); they are rebased here so that an
-    id denotes one node of the whole file."""
+def parse_trace(path, first_id=0):
+    """-> (searches, evals, maxid); searches = list of dict(root_fen, nroot, events=[('N', rec) | ('R', tuple) | ('D', ...)]).
+    Node ids restart at 1 for every Search object (record O); they are rebased here (starting
+    above first_id) so that an id denotes one node of all files of one engine process."""
     searches = []
     cur = None
     evals = []
-    base = 0
-    maxid = 0
+    base = first_id
+    maxid = first_id
     if not os.path.exists(path):
-        return searches, evals
+        return searches, evals, maxid
 
     def gid(x):
         return x + base if x else 0
@@ -722,7 +809,7 @@ def parse_trace(path):
         elif tag == "D":
             t = line.split()
             cur["events"].append(("D", (int(t[1]), int(t[2]))))
-    return searches, evals
+    return searches, evals, maxid
 
 
 SITE_NAMES = {1: "mate-distance-pruning", 2: "draw50-but-mated", 3: "draw50", 4: "draw-repetition", 5: "tt-cutoff", 6: "busy",
@@ -732,13 +819,39 @@ SITE_NAMES = {1: "mate-distance-pruning", 2: "draw50-but-mated", 3: "draw50", 4:
               20: "q-standpat", 21: "q-cutoff", 22: "q-end", 0: "untagged"}
 
 
+def thread_files(path):
+    """trace files of one engine process: the main thread's and path.N of the helper threads"""
+    out = [path] if os.path.exists(path) else []
+    d, b = os.path.dirname(path), os.path.basename(path)
+    for f in sorted(os.listdir(d)) if os.path.isdir(d) else []:
+        if f.startswith(b + ".") and f[len(b) + 1:].isdigit():
+            out.append(os.path.join(d, f))
+    return out
+
+
 def justify_trace(ml_exe, harness_exe, path):
-    """Check every mate-score node of one engine process's trace.
-    Returns (breaks, stats, number of checker verdicts, keys of distinct justified nodes)."""
+    """Check every mate-score node of one engine process's trace (all its threads).
+    Returns (breaks, stats, number of checker verdicts, keys of distinct justified nodes).
+
+    Multi-threaded processes: every thread has its own file and its own node ids; a table entry
+    used by one thread may have been stored by another, and the files carry no common clock.
+    The request stream (thread 0, then the helpers) is therefore handed to the checker several
+    times: a node is accepted in the first pass in which everything it relies on has been
+    accepted before, so every acceptance is still well-founded (C04_certificate_sound holds for
+    any item list); a node accepted in no pass is a break."""
     stats = {}
     nev = 0
     keys = set()
-    searches, evals = parse_trace(path)
+    files = thread_files(path)
+    mt = len(files) > 1
+    searches, evals, nid = [], [], 0
+    for fi, f in enumerate(files):
+        s, e, nid = parse_trace(f, nid)
+        for x in s:
+            x["file"] = fi
+        searches += s
+        evals += e
+    helper_roots = {}      # (fen4, alpha, beta, score) -> node id, root-level nodes of helper threads
     breaks = []
     for lo, hi in evals:
         stats["eval_min"] = min(stats.get("eval_min", 0), lo)
@@ -761,6 +874,11 @@ def justify_trace(ml_exe, harness_exe, path):
     reqs = []        # (line, meta); one fresh checker process per trace file
     recs = {}
     key2pos = {}
+    for s in searches:
+        if s.get("file", 0) > 0:
+            for tag, r in s["events"]:
+                if tag == "N" and r.ply == 1 and r.fn == 0 and r.kind == -1 and r.fen:
+                    helper_roots[(fen4(r.fen), r.alpha, r.beta, r.score)] = r.id
     for si, s in enumerate(searches):
         root_ann = fens.get(s["root_fen"]) if s["root_fen"] else None
         root_moves = {c: f for c, f in root_ann[1]} if root_ann else {}
@@ -830,6 +948,16 @@ def justify_trace(ml_exe, harness_exe, path):
                     ok_link = (c is not None and c.kind == 8 and c.move == move and c.ply == 1 and c.fen is not None
                                and move in root_moves and fen4(c.fen) == fen4(root_moves[move]))
                     n = model_mate_of_score(score)
+                    if not ok_link and mt and move in root_moves:
+                        # the score may have been imported from a helper thread (HelperThreadResult):
+                        # the node that produced it is the root-level node of that helper's job
+                        hid = helper_roots.get((fen4(root_moves[move]), -beta, -alpha, -score))
+                        if hid is not None:
+                            cid = hid
+                            ok_link = True
+                        else:
+                            stats["root_scores_from_helpers_unlinked"] = stats.get("root_scores_from_helpers_unlinked", 0) + 1
+                            continue
                     if not ok_link:
                         breaks.append(dict(kind="root", what="root win score without a matching logged child", fen=s["root_fen"],
                                            move=code_to_uci(move), score=score))
@@ -850,13 +978,26 @@ def justify_trace(ml_exe, harness_exe, path):
                         c = recs.get(v[4]) if v else None
                         if c is not None and c.kind == 8 and c.move == code and c.fen is not None and fen4(c.fen) == fen4(fafter) and c.score == -v[3]:
                             ch.append(v[4])
+                        elif mt and v and helper_roots.get((fen4(fafter), -v[2], -v[1], -v[3])) is not None:
+                            ch.append(helper_roots[(fen4(fafter), -v[2], -v[1], -v[3])])
                         else:
                             ch.append(0)
                     n = -model_mate_of_score(best)
                     reqs.append(("RL %d %d %d %s" % (best, n, len(ch), " ".join(str(x) for x in ch)), ("RL", (best, s["root_fen"]), si)))
                 last_r = {}
     # ---- run the extracted checker
-    out = batch(ml_exe, [l for l, _ in reqs], timeout=3600)
+    nreq = len(reqs)
+    outs = batch_retry(ml_exe, [l for l, _ in reqs], retry=mt)
+    out = outs[:nreq]
+    if mt:
+        bad = [i for i in range(nreq) if out[i] != "OK"]
+        later = 0
+        for i, v in zip(bad, outs[nreq:]):
+            if v == "OK":
+                out[i] = "OK"
+                later += 1
+        stats["mt_processes_traced"] = 1
+        stats["mt_nodes_accepted_only_after_retry"] = later
     for (l, meta), verdict in zip(reqs, out):
         kind = meta[0]
         if kind == "N":
@@ -926,6 +1067,12 @@ def directed_requests(ctx, positions):
             reqs.append("T")
     for seed in NULL_THREAT_SEEDS:
         for fen in (seed, mirror_fen(seed)):
+            # lose-range window: normalBound is false below this node, so neither reverse futility nor
+            # late-move/futility pruning hides the mate threat from the null-move search, which then
+            # fails high with a win score: the isWinScore clamp of the null-move return is taken
+            for depth in (5, 6):
+                for w in ((-20001, -20000), (-31001, -31000)):
+                    reqs.append("D %s | %d %d %d %d" % (fen, w[0], w[1], 2, depth))
             for depth in (5, 7, 10):
                 for w in ((100, 101), (-50, -49), (700, 701)):
                     reqs.append("D %s | %d %d %d %d" % (fen, w[0], w[1], 2, depth))
@@ -1136,21 +1283,32 @@ def plan_sessions(ctx, oracle, engines, harness_exe, traced):
     alljobs = corpus + jobs + m1jobs
     for i, j in enumerate(alljobs):
         sessions[i % len(sessions)]["jobs"].append(j)
-    # multi-threaded sessions: finder only (per-thread trace files are not merged)
-    nmt = ctx.scale(2, 10)
+    # multi-threaded sessions (Threads 2-4, depth 10-14) on won/lost 3- and easy 4-man positions:
+    # every announced mate is checked against the exact distance-to-mate oracle; with the hook the
+    # per-thread traces are certified too (shorter mates only: the trace volume explodes once the
+    # mate is found)
+    nmt = ctx.scale(8, 40)
+    per = ctx.scale(5, 12)
+    short = dtm_endgames(rng, oracle, (nmt // 2) * per, 3, 6)
+    longer = dtm_endgames(rng, oracle, (nmt - nmt // 2) * per, 5, 12)
+    ctx.count("mt_positions_exact_dtm", len(short) + len(longer))
     for i in range(nmt):
         net = rng.choice(list(engines))
+        small = i < nmt // 2
         s = dict(exe=engines[net], net=net, harness=harness_exe, max_n=ctx.scale(2, 3),
-                 options={"Hash": rng.choice([1, 16]), "Threads": rng.choice([2, 3, 4]), "UseNullMove": rng.choice(["true", "false"])},
-                 jobs=[], trace=None, idx=len(sessions), mt=True)
-        for j in rng.sample(jobs, min(len(jobs), ctx.scale(5, 30))) + rng.sample(m1jobs, min(len(m1jobs), ctx.scale(5, 30))):
+                 options={"Hash": rng.choice([4, 16]), "Threads": rng.choice([2, 3, 4, 4]), "UseNullMove": rng.choice(["true", "true", "false"])},
+                 jobs=[], trace=None, idx=len(sessions), mt=True, mt_trace=small)
+        pool = short if small else longer
+        for (fen, e) in pool[(i % max(1, nmt // 2)) * per:(i % max(1, nmt // 2)) * per + per]:
+            s["jobs"].append((fen, rng.choice([10, 11, 12]) if small else rng.choice([12, 13, 14]), rng.random() < 0.5, "mt_%s" % e[0]))
+        for j in rng.sample(m1jobs, min(len(m1jobs), ctx.scale(3, 20))):
             s["jobs"].append(j)
         sessions.append(s)
     if traced:
         d = os.path.join("/tmp", "c04-%d" % os.getpid())
         os.makedirs(d, exist_ok=True)
         for s in sessions:
-            if not s.get("mt"):
+            if not s.get("mt") or s.get("mt_trace"):
                 s["trace"] = os.path.join(d, "trace-%d.txt" % s["idx"])
     dpos = [(f, d) for f, d, _ in mates] + [(f, None) for f in endg[:ctx.scale(8, 60)]] + [(f, None) for f in mated]
     return sessions, dpos
@@ -1210,6 +1368,11 @@ def run(ctx):
     finally:
         oracle.close()
     dreqs = directed_requests(ctx, dpos)
+    oracle2 = Oracle(harness_exe)
+    try:
+        special = null_clamp_scenarios(oracle2)
+    finally:
+        oracle2.close()
     ctx.log("planned %d sessions, %d searches" % (len(sessions), sum(len(s['jobs']) for s in sessions)))
     t0 = time.time()
     with ThreadPoolExecutor(max_workers=min(NCPU, 12)) as ex:
@@ -1218,7 +1381,9 @@ def run(ctx):
     ctx.log("searches done")
     # directed node searches (harness): chunks, each one process with its own table and trace
     nchunk = ctx.scale(6, 24)
-    chunks = [dreqs[i::nchunk] for i in range(nchunk)]
+    chunks = [dreqs[i::nchunk] for i in range(nchunk)] + [[q for seq in special for q in seq]]
+    nchunk = len(chunks)
+    ctx.count("directed_null_clamp_scenarios", len(special))
     tdir = os.path.join("/tmp", "c04-%d" % os.getpid())
     if traced:
         os.makedirs(tdir, exist_ok=True)
